@@ -575,6 +575,16 @@ impl<'a> Peripheral<'a> {
                     }
                 } else {
                     let event = match telegram {
+                        crate::fdl::Telegram::Data(t)
+                            if t.h.dsap != crate::consts::SAP_MASTER_DATA_EXCHANGE
+                                || t.h.ssap != crate::consts::SAP_SLAVE_DATA_EXCHANGE =>
+                        {
+                            log::warn!(
+                                "Got response from #{} with unexpected SAPs for data exchange: {t:?}",
+                                self.address
+                            );
+                            None
+                        }
                         crate::fdl::Telegram::Data(t) => {
                             let data_ok = match t.is_response().unwrap() {
                                 crate::fdl::ResponseStatus::SapNotEnabled => {
